@@ -224,8 +224,11 @@ class FuncGen(object):
         return self.leaf(shape)
 
 
+AGNOSTIC_SHAPE = (3,)   # shape-agnostic functions are generated for this shape; any (n,) can be substituted
+
+
 def gen_explicit(rng, nout=None, depth=None, with_static=False, max_inputs=3, elementwise_bias=0.4, lite=False,
-                 methods=False, hiorder=False):
+                 methods=False, hiorder=False, agnostic=False):
     """Description of an explicit function: inputs (name->shape), outputs (name->shape), body lines.
     methods: structural primitives in method form on compound receivers ((0.5 * a).dot(b), (2.0 * a).T, ...): the
     style that a source-level dependency analysis has to see through."""
@@ -234,6 +237,9 @@ def gen_explicit(rng, nout=None, depth=None, with_static=False, max_inputs=3, el
         g.pmethod, g.pscaled, g.cuts = 1.0, 1.0, (0.15, 0.3, 0.9)
     if hiorder:
         g.hi, g.cuts = True, (0.4, 0.75, 0.88)
+    if agnostic:
+        # elementwise primitives, scalar broadcasts and full sums only: the body is valid for every (n,)
+        g.cuts = (0.45, 0.9, 0.9)
     if with_static:
         g.static = 'kopt'
     nout = nout or int(g.pick(LITE['nouts'] if lite else [1, 1, 2, 2, 3]))
@@ -245,6 +251,8 @@ def gen_explicit(rng, nout=None, depth=None, with_static=False, max_inputs=3, el
             shape = g.pick(list(g.inputs.values()))
         else:
             shape = g.pick(LITE['shapes'] if lite else SHAPES)
+        if agnostic:
+            shape = AGNOSTIC_SHAPE
         if hiorder and rng.random() < 0.55:
             e, used = g.stationary(shape)
             free = [n for n, s_ in g.inputs.items() if s_ == tuple(shape) and n not in used]
@@ -265,7 +273,7 @@ def gen_explicit(rng, nout=None, depth=None, with_static=False, max_inputs=3, el
 
 
 def gen_implicit(rng, nstate=None, depth=None, with_static=False, max_inputs=3, lite=False, methods=False,
-                 hiorder=False):
+                 hiorder=False, agnostic=False):
     """Residuals r_i = c_i*s_i + 0.3*sin(s_i) [+ 0.2*coupling] - g_i(inputs): diagonally dominant in the
     states, so a Newton solve converges and the implicit-function-theorem totals are well conditioned."""
     g = FuncGen(rng, max_inputs=max_inputs)
@@ -273,12 +281,16 @@ def gen_implicit(rng, nstate=None, depth=None, with_static=False, max_inputs=3, 
         g.pmethod, g.pscaled, g.cuts = 1.0, 1.0, (0.15, 0.3, 0.9)
     if hiorder:
         g.hi, g.cuts = True, (0.4, 0.75, 0.88)
+    if agnostic:
+        g.cuts = (0.45, 0.9, 0.9)
     if with_static:
         g.static = 'kopt'
     nstate = nstate or int(g.pick(LITE['nstates'] if lite else [1, 1, 2]))
     states, lines = {}, []
     for k in range(nstate):
         shape = g.pick(LITE['state_shapes'] if lite else [(), (2,), (3,), (2, 2)])
+        if agnostic:
+            shape = AGNOSTIC_SHAPE
         states['s%d' % k] = tuple(shape)
     for k, (s, shape) in enumerate(states.items()):
         d = depth or int(g.pick([2, 2, 3] if hiorder else LITE['state_depths'] if lite else [1, 2, 2]))
